@@ -199,9 +199,13 @@ def m_step(machine: "IVectorMachine", stats: IVectorStats) -> "IVectorMachine":
         fnorm_sigma_wij_tt = np.diagonal(
             stats.fnorm_sigma_wij @ X, axis1=-2, axis2=-1
         )
-        machine.sigma = (stats.snormij - fnorm_sigma_wij_tt) / stats.nij[
-            :, None
-        ]
+        # Components that received no data at all keep their previous sigma
+        has_data = stats.nij > 0
+        new_sigma = np.array(machine.sigma, dtype=float)
+        new_sigma[has_data] = (stats.snormij - fnorm_sigma_wij_tt)[
+            has_data
+        ] / stats.nij[has_data, None]
+        machine.sigma = new_sigma
         machine.sigma[
             machine.sigma < machine.variance_floor
         ] = machine.variance_floor
